@@ -17,7 +17,9 @@ import (
 	"go/types"
 	"log"
 	"runtime"
+	"runtime/debug"
 	"slices"
+	"strings"
 
 	"golang.org/x/tools/go/ssa"
 )
@@ -108,12 +110,8 @@ func (fr *frame) runDefer(d *deferred) {
 	defer func() {
 		if !ok {
 			// Deferred call created a new state of panic.
-			p := recover()
-			if isEngineAbort(p) {
-				panic(p)
-			}
 			fr.panicking = true
-			fr.panic = p
+			fr.panic = classifyPanic(recover(), fr)
 		}
 	}()
 	call(fr.i, fr, d.instr.Pos(), d.fn, d.args)
@@ -209,7 +207,11 @@ func visitInstr(fr *frame, instr ssa.Instruction) continuation {
 		panic(pathAbort{"unsupported", "channel send"})
 
 	case *ssa.Store:
-		store(deref(instr.Addr.Type()), fr.get(instr.Addr).(*value), fr.get(instr.Val))
+		addr := fr.get(instr.Addr).(*value)
+		if addr == nil {
+			panic(rtPanic("runtime error: invalid memory address or nil pointer dereference"))
+		}
+		store(deref(instr.Addr.Type()), addr, fr.get(instr.Val))
 
 	case *ssa.If:
 		succ := 1
@@ -258,7 +260,7 @@ func visitInstr(fr *frame, instr ssa.Instruction) continuation {
 		c := fr.i.concSize(fr.get(instr.Cap), "makeslice: cap out of range")
 		l := fr.i.concSize(fr.get(instr.Len), "makeslice: len out of range")
 		if l > c {
-			panic("runtime error: makeslice: len out of range")
+			panic(rtPanic("runtime error: makeslice: len out of range"))
 		}
 		slice := make([]value, c)
 		tElt := instr.Type().Underlying().(*types.Slice).Elem()
@@ -279,7 +281,7 @@ func visitInstr(fr *frame, instr ssa.Instruction) continuation {
 	case *ssa.FieldAddr:
 		x := fr.get(instr.X).(*value)
 		if x == nil {
-			panic("runtime error: invalid memory address or nil pointer dereference")
+			panic(rtPanic("runtime error: invalid memory address or nil pointer dereference"))
 		}
 		fr.env[instr] = &(*x).(structure)[instr.Field]
 
@@ -294,7 +296,7 @@ func visitInstr(fr *frame, instr ssa.Instruction) continuation {
 			fr.env[instr] = &x[fr.i.concIndex(idx, len(x))]
 		case *value: // *array
 			if x == nil {
-				panic("runtime error: invalid memory address or nil pointer dereference")
+				panic(rtPanic("runtime error: invalid memory address or nil pointer dereference"))
 			}
 			a := (*x).(array)
 			fr.env[instr] = &a[fr.i.concIndex(idx, len(a))]
@@ -362,7 +364,7 @@ func prepareCall(fr *frame, call *ssa.CallCommon) (fn value, args []value) {
 		// Interface method invocation.
 		recv := v.(iface)
 		if recv.t == nil {
-			panic("runtime error: invalid memory address or nil pointer dereference")
+			panic(rtPanic("runtime error: invalid memory address or nil pointer dereference"))
 		}
 		if f := lookupMethod(fr.i, recv.t, call.Method); f == nil {
 			// Unreachable in well-typed programs.
@@ -385,7 +387,7 @@ func call(i *interpreter, caller *frame, callpos token.Pos, fn value, args []val
 	switch fn := fn.(type) {
 	case *ssa.Function:
 		if fn == nil {
-			panic("call of nil function") // nil of func type
+			panic(rtPanic("runtime error: invalid memory address or nil pointer dereference")) // nil func
 		}
 		return callSSA(i, caller, callpos, fn, args, nil)
 	case *closure:
@@ -478,14 +480,7 @@ func runFrame(fr *frame) {
 		if fr.block == nil {
 			return // normal return
 		}
-		p := recover()
-		if isEngineAbort(p) {
-			panic(p) // not visible to the target program
-		}
-		if te, ok := p.(*runtime.TypeAssertionError); ok {
-			// the target's own assertions never use Go's; this is an engine fault
-			panic(pathAbort{"engine", te.Error() + " in " + fr.fn.String()})
-		}
+		p := classifyPanic(recover(), fr)
 		fr.panicking = true
 		fr.panic = p
 		fr.runDefers()
@@ -508,12 +503,41 @@ func runFrame(fr *frame) {
 	}
 }
 
-func isEngineAbort(p interface{}) bool {
-	switch p.(type) {
+// rtPanic is a Go run-time panic of the target program raised by the engine
+// while emulating an instruction (index, nil dereference, failed assertion…).
+type rtPanic string
+
+func rtPanicf(format string, args ...interface{}) rtPanic {
+	return rtPanic(fmt.Sprintf(format, args...))
+}
+
+// classifyPanic separates what the target may observe (its own panics and
+// its run-time errors) from engine aborts and engine faults; the latter two
+// are re-raised at once so that no deferred target code sees them.
+func classifyPanic(p interface{}, fr *frame) interface{} {
+	switch q := p.(type) {
 	case pathAbort, exitPanic:
-		return true
+		panic(p)
+	case targetPanic, rtPanic:
+		return p
+	case runtime.Error:
+		if strings.Contains(q.Error(), "integer divide by zero") {
+			return rtPanic("runtime error: integer divide by zero")
+		}
+		panic(pathAbort{"engine", q.Error() + " in " + fr.fn.String() + "\n" + string(debug.Stack())})
 	}
-	return false
+	panic(pathAbort{"engine", fmt.Sprintf("%v in %s", p, stackOf(fr))})
+}
+
+func stackOf(fr *frame) string {
+	var sb strings.Builder
+	for f, n := fr, 0; f != nil && n < 8; f, n = f.caller, n+1 {
+		if n > 0 {
+			sb.WriteString(" < ")
+		}
+		sb.WriteString(f.fn.String())
+	}
+	return sb.String()
 }
 
 // executePhis executes the phi-nodes at the start of the current
@@ -566,12 +590,8 @@ func doRecover(caller *frame) value {
 		case targetPanic:
 			// The target program explicitly called panic().
 			return p.v
-		case runtime.Error:
-			// The interpreter encountered a runtime error.
-			return iface{caller.i.runtimeErrorString, p.Error()}
-		case string:
-			// The interpreter explicitly called panic().
-			return iface{caller.i.runtimeErrorString, p}
+		case rtPanic:
+			return iface{caller.i.runtimeErrorString, string(p)}
 		default:
 			panic(fmt.Sprintf("unexpected panic type %T in target call to recover()", p))
 		}
